@@ -104,6 +104,60 @@ func hookEvents(x *runner) {
 		}
 		polyvalEvent(x, []string{"internal", "subtle"}[k%2], key, chunks)
 	}
+	// lengths on both sides of every plausible bulk-path threshold, in ONE Update call, with random, all-ones and
+	// single-non-zero-block contents (a block-position-dependent slip shows with a single non-zero block at every
+	// position of a 64-byte group)
+	bulk := []int{}
+	for k := 1; k <= 12; k++ {
+		bulk = append(bulk, 16*k)
+	}
+	bulk = append(bulk, 255, 256, 257, 511, 512, 513, 1008, 1023, 1024, 1025, 1040, 1088, 2048, 4096, 8192)
+	impls := []string{"internal"}
+	if x.full {
+		impls = []string{"internal", "subtle"}
+	}
+	for li, l := range bulk {
+		for _, impl := range impls {
+			polyvalEvent(x, impl, vt.Bytes(r, 16), [][]byte{vt.Bytes(r, l)})
+			if l < 8192 || x.full {
+				polyvalEvent(x, impl, vt.Bytes(r, 16), [][]byte{ones(l)})
+			}
+		}
+		if !x.full && li%3 == seed%3 {
+			polyvalEvent(x, "subtle", vt.Bytes(r, 16), [][]byte{vt.Bytes(r, l)})
+		}
+		if l >= 1024 { // a long chunk followed / preceded by a short one (Update pads each chunk)
+			polyvalEvent(x, "internal", vt.Bytes(r, 16), [][]byte{vt.Bytes(r, l), vt.Bytes(r, 5)})
+			if l <= 2048 {
+				polyvalEvent(x, "internal", vt.Bytes(r, 16), [][]byte{vt.Bytes(r, 17), vt.Bytes(r, l)})
+			}
+		}
+	}
+	singles := []int{1024, 1088}
+	if x.full {
+		singles = []int{64, 128, 256, 512, 1008, 1024, 1040, 1088, 2048, 4096}
+	}
+	for _, l := range singles {
+		nb := l / 16
+		pos := map[int]bool{nb - 1: true}
+		for _, g := range []int{0, nb / 8, nb/4 - 1} { // first, a middle and the last 64-byte group
+			for q := 0; q < 4; q++ {
+				if b := 4*g + q; b >= 0 && b < nb {
+					pos[b] = true
+				}
+			}
+		}
+		for b := 0; b < nb; b++ {
+			if !pos[b] {
+				continue
+			}
+			for _, impl := range impls {
+				d := make([]byte, l)
+				copy(d[16*b:], vt.Bytes(r, 16))
+				polyvalEvent(x, impl, vt.Bytes(r, 16), [][]byte{d})
+			}
+		}
+	}
 	// counter mode around the 32-bit wrap and elsewhere
 	starts := [][]byte{{0xff, 0xff, 0xff, 0xff}, {0xfe, 0xff, 0xff, 0xff}, {0xfd, 0xff, 0xff, 0xff}, {0xff, 0xff, 0xff, 0x7f},
 		{0, 0, 0, 0}, {0xff, 0, 0, 0}, {0xff, 0xff, 0, 0}, {0xff, 0xff, 0xff, 0}, {0x00, 0xff, 0xff, 0xff}}
